@@ -38,6 +38,12 @@ func ZzC10Basic() {
 	otherUser := zzPrintable("otheruser", 1, zzParam("UL", 3), false)
 	zzAssume(otherUser != user)
 	zzAssert(Verify(req, otherUser, pass, []VerifyMethod{VerifyMethodBasic}, "r", "n") != nil, "basic: a different user is rejected")
+	// any other pair, both fields free, is rejected too (a shifted boundary between
+	// user and password must not be accepted)
+	u2 := zzPrintable("user2", 0, zzParam("UL", 3)+1, false)
+	p2 := zzPrintable("pass2", 0, zzParam("PL", 3)+1, true)
+	zzAssume(zzOr(u2 != user, p2 != pass))
+	zzAssert(Verify(req, u2, p2, []VerifyMethod{VerifyMethodBasic}, "r", "n") != nil, "basic: any other (user, password) pair is rejected")
 	// scheme not enabled
 	zzAssert(Verify(req, user, pass, []VerifyMethod{VerifyMethodDigestMD5}, "r", "n") != nil, "basic: rejected when Basic is not among the enabled methods")
 	zzCover("password with colon", zzSAt(pass, 0) == ':')
